@@ -744,7 +744,12 @@ func (f *fix) extOf(i int) string {
 		add("wasm", b01(d.VM.IsWasm))
 		add("ca", d.VM.CAddr)
 		add("vs", b01(d.VM.Success))
-		add("vg", d.VM.GasUsed)
+		vg := d.VM.GasUsed
+		func() {
+			defer func() { recover() }()
+			vg = capGas(d.VM.GasUsed, f.chain.VerifC05GasLimit(f.check, tx))
+		}()
+		add("vg", vg)
 		if len(d.VM.Deltas) > 0 {
 			var ds []string
 			for _, x := range d.VM.Deltas {
@@ -852,12 +857,23 @@ func (v *fakeVM) Run(tx *types.Transaction, from *common.Address, gasLimit int64
 			v.f.check.State.SubBalance(a, new(big.Int).Neg(d.D))
 		}
 	}
-	rc := &types.TxReceipt{Success: v.r.Success, GasUsed: v.r.GasUsed}
+	rc := &types.TxReceipt{Success: v.r.Success, GasUsed: capGas(v.r.GasUsed, gasLimit)}
 	if !v.r.Success {
 		rc.Error = errors.New("contract failed")
 	}
 	return rc
 }
+// capGas: the real VMs never report more gas than the limit the wrapper gave them
+func capGas(used uint64, limit int64) uint64 {
+	if limit <= 0 {
+		return 0
+	}
+	if used > uint64(limit) {
+		return uint64(limit)
+	}
+	return used
+}
+
 func (v *fakeVM) Read(contractAddr common.Address, method string, args ...[]byte) ([]byte, error) {
 	return nil, errors.New("not supported")
 }
